@@ -178,7 +178,7 @@ Qed.
 
 Definition gval (h : heap) (p : ppl) : aval := (abs h p, p_prio p).
 Definition gent (h : heap) (e : str * rent ppl) : str * rent aval :=
-  (fst e, match snd e with RObj p => RObj (gval h p) | RCall d => RCall d end).
+  (fst e, match snd e with RObj p => RObj (gval h p) | RCall d => RCall d | RSeq ds => RSeq ds end).
 
 Lemma ainst_objs h c l : (forall x, In x l -> is_obj (fst x)) ->
   ainst_all c (map (gx (gent h)) l) = (map (gx (gval h)) (map (gx ent_ppl) l), c).
@@ -310,7 +310,7 @@ Section Machines.
     - intros e He. apply (abs_stable h h' _ F). apply Vr. exact He.
     - split; [|split; assumption].
       apply map_ext_in. intros e He. unfold gent. specialize (Vr e He). unfold ent_ppl in Vr.
-      destruct (snd e) as [p|d]; [|reflexivity].
+      destruct (snd e) as [p|d|ds]; [|reflexivity|reflexivity].
       unfold gval. destruct (abs_stable _ _ p F Vr) as [E _]. rewrite E. reflexivity.
   Qed.
   Lemma mach_frame h h' m : frame h h' -> allvalid h m -> amach_of h' m = amach_of h m /\ allvalid h' m.
